@@ -998,10 +998,11 @@ def run(rep, tier, seed):
         # ------------------------------------------------------------------ R2: histories
         hists = list(targets)
         taken, ante = {}, {}
-        per_scope = 80 if quick else 1200
+        per_scope = 80 if quick else 500
         for scope, mo in graph_scopes:
             g = tlc.parse_dot(os.path.join(d, f"g_{scope}.dot"))
-            paths, total = _paths_from_graph(g, per_scope, rnd)
+            # reprT is concretised under every theme of the catalogue in the thorough tier: fewer paths, nine variants each
+            paths, total = _paths_from_graph(g, per_scope if (quick or scope != "reprT") else per_scope // 5, rnd)
             rep.add("graph_edges", len(g.edges))
             rep.add("graph_paths_total", total)
             rep.add("graph_paths_replayed", len(paths))
